@@ -235,6 +235,14 @@ func runC06(c *Ctx) {
 		}
 		add(c06FloatTieJob(c, i))
 	}
+	// same-day directives of DIFFERENT files whose order matters (stream `arrival`): transactions tied under transaction.Compare
+	// that differ in their @performance targets, and one price pair quoted differently on one day (both found by the census review)
+	for i := 0; i < c.N(40, 240); i++ {
+		if !want("arrival", i) {
+			continue
+		}
+		add(c06ArrivalJob(c, i))
+	}
 	gomax := []string{"1", "2", "16"}
 	parallelFor(len(jobs), 8, func(q int) {
 		jb := jobs[q]
@@ -313,9 +321,13 @@ func runC06(c *Ctx) {
 				delete(in, "files") // large: regenerated from (seed, stream, index); the tree description says what is in them
 			}
 		}
-		if jb.Idx >= 300000 {
+		if jb.Idx >= 300000 && jb.Idx < 400000 {
 			stream, idx = "floatties", jb.Idx-300000
 			delete(in, "layout")
+			in["files"], in["shape"] = jb.Files, jb.Input["shape"]
+		}
+		if jb.Idx >= 400000 {
+			stream, idx = "arrival", jb.Idx-400000
 			in["files"], in["shape"] = jb.Files, jb.Input["shape"]
 		}
 		sameExit, exits, firstOther := true, "", ""
@@ -635,10 +647,16 @@ func c06FailJob(c *Ctx, i int) *c06Job {
 //     and -Inf%;
 //   - `print` and `transcode` of a journal that loads: price / open / balance / close directives of ONE date that come from
 //     DIFFERENT files are printed in the order in which the loader goroutines delivered the files.
+//   - `print`: same-day TRANSACTIONS of different files that are equal in date, description and postings but differ in their
+//     `@performance(...)` targets tie under transaction.Compare (it does not look at the targets) and are printed in arrival order;
+//   - valued reports on an input in which >= 2 files quote one (unordered) price pair on one date differently: the quotes reach
+//     Prices.Insert in arrival order and the last one wins.
 const (
 	c06KnownReturnsPrefix = "returns-prints-periods-before-a-late-failure"
 	c06KnownReturnsNaN    = "returns-ill-conditioned-period-float-sum-in-arrival-order"
 	c06KnownArrivalOrder  = "print-same-day-directives-of-different-files-in-arrival-order"
+	c06KnownTargets       = "print-same-day-transactions-differing-only-in-targets-in-arrival-order"
+	c06KnownRequote       = "valued-reports-same-day-requote-across-files"
 )
 
 func c06KnownDifference(jb *c06Job) string {
@@ -677,8 +695,184 @@ func c06KnownDifference(jb *c06Job) string {
 		if allSame(c06CanonSameDay, false) {
 			return c06KnownArrivalOrder
 		}
+		if strings.HasPrefix(jb.Kind, "print") && allSame(c06CanonTiedTargets, false) {
+			return c06KnownTargets
+		}
+	}
+	// a valued report (`-v`) on an input with one price pair quoted differently on one date in two files: the last arrival wins
+	valued := false
+	for _, a := range jb.Args {
+		valued = valued || a == "-v"
+	}
+	if valued && c06RequoteAcrossFiles(jb.Files) {
+		return c06KnownRequote
 	}
 	return ""
+}
+
+// c06CanonTiedTargets sorts, inside every maximal run of consecutive transaction blocks of `knut print` that are identical except
+// for their `@performance(...)` line, the blocks of the run; everything else stays in place.
+func c06CanonTiedTargets(out string) string {
+	blocks := strings.Split(out, "\n\n")
+	key := func(b string) string { // "" for anything that is not a transaction block
+		lines := strings.Split(strings.Trim(b, "\n"), "\n")
+		if len(lines) > 0 && strings.HasPrefix(lines[0], "@performance(") {
+			lines = lines[1:]
+		}
+		if len(lines) < 2 || len(lines[0]) < 12 || lines[0][4] != '-' || lines[0][7] != '-' || lines[0][10] != ' ' || lines[0][11] != '"' {
+			return ""
+		}
+		return strings.Join(lines, "\n")
+	}
+	for lo := 0; lo < len(blocks); {
+		k := key(blocks[lo])
+		hi := lo + 1
+		for k != "" && hi < len(blocks) && key(blocks[hi]) == k {
+			hi++
+		}
+		if hi-lo > 1 {
+			run := blocks[lo:hi]
+			for q := range run {
+				run[q] = strings.Trim(run[q], "\n")
+			}
+			sort.Strings(run)
+		}
+		lo = hi
+	}
+	return strings.Join(blocks, "\n\n")
+}
+
+// c06RequoteAcrossFiles: at least two files of the case quote one unordered commodity pair on one date, and not all of these
+// quotes are the same directive (commodity, price, target).
+func c06RequoteAcrossFiles(files map[string]string) bool {
+	type quote struct{ file, text string }
+	byPair := map[string][]quote{}
+	for name, content := range files {
+		if !strings.HasSuffix(name, ".knut") {
+			continue
+		}
+		for _, l := range strings.Split(content, "\n") {
+			f := strings.Fields(l)
+			if len(f) != 5 || f[1] != "price" || len(f[0]) != 10 || l[0] == ' ' {
+				continue
+			}
+			a, b := f[2], f[4]
+			if a > b {
+				a, b = b, a
+			}
+			k := f[0] + " " + a + " " + b
+			byPair[k] = append(byPair[k], quote{name, f[2] + " " + f[3] + " " + f[4]})
+		}
+	}
+	for _, qs := range byPair {
+		for _, q := range qs[1:] {
+			if q.file != qs[0].file && q.text != qs[0].text {
+				return true
+			}
+			if q.text != qs[0].text { // three quotes, the differing ones in other files than the first
+				for _, q2 := range qs {
+					if q2.file != q.file && q2.text != q.text {
+						return true
+					}
+				}
+			}
+		}
+	}
+	return false
+}
+
+// ---------------------------------------------------------------- stream `arrival`: same-day directives of different files whose order matters
+//
+// The loader delivers the files of an include tree in schedule order and the journal builder appends per day and kind. What is
+// sorted afterwards (a day's transactions, by transaction.Compare) or summed exactly does not show the arrival order. Two
+// things do, both found by the review of the census of order-sensitive sites (FactsAgree/C06.lean) and recorded as known
+// findings; this stream keeps them in view with narrow class predicates, so that anything else these inputs show still fails:
+//
+//	targets  every file holds one transaction with the same date, description and postings but its own `@performance(...)`
+//	         annotation (a target list, the empty list, or none): they tie in the Sort stage and `print` shows them in arrival
+//	         order. Class: exit 0 in all runs and equal outputs after sorting the runs of such blocks (c06CanonTiedTargets).
+//	requote  every file quotes the same price pair on the same date with its own price (some in the other direction); the
+//	         last arrival wins in every valued report (balance, register, transcode, portfolio weights with -v). Class: the
+//	         input has such quotes in >= 2 files (c06RequoteAcrossFiles) and all runs exit alike. Control cases quote the SAME
+//	         price everywhere: they must be byte-stable.
+//
+// Files: 2-7 included files of different sizes (0-600 filler transactions with descriptions of their own), nested directories.
+func c06ArrivalJob(c *Ctx, i int) *c06Job {
+	r := c.Rng("arrival", i)
+	nf := r.Range(2, 7)
+	sizes := []int{0, 1, 5, 20, 60, 200}
+	if c.Thorough() {
+		sizes = append(sizes, 600)
+	}
+	files := map[string]string{}
+	var root strings.Builder
+	root.WriteString("2019-12-31 open Assets:Bank\n2019-12-31 open Assets:Broker\n2019-12-31 open Equity:Opening\n\n")
+	day := fmt.Sprintf("2020-02-%02d", r.Range(1, 28))
+	family := []string{"targets", "requote"}[i%2]
+	same := family == "requote" && i%10 == 9 // control: every file quotes the same price
+	var shape []string
+	for k := 0; k < nf; k++ {
+		rel := path.Join(Pick(r, []string{"", "", "inc", "inc/deep"}), fmt.Sprintf("f%d.knut", k))
+		fmt.Fprintf(&root, "include \"%s\"\n", rel)
+		var b strings.Builder
+		n := Pick(r, sizes)
+		for q := 0; q < n; q++ {
+			fmt.Fprintf(&b, "2020-01-%02d \"shop%d no %d\"\nAssets:Bank Assets:Broker %d CHF\n\n", 1+q%28, k, q, q+1)
+		}
+		switch family {
+		case "targets":
+			ann := ""
+			switch v := r.Intn(5); {
+			case v == 0 && k > 0:
+				ann = "@performance()\n"
+			case v == 1 && k > 1:
+				ann = ""
+			case v == 2:
+				ann = fmt.Sprintf("@performance(T%d,CHF)\n", k)
+			default:
+				ann = fmt.Sprintf("@performance(T%d)\n", k)
+			}
+			fmt.Fprintf(&b, "%s%s \"buy\"\nAssets:Bank Assets:Broker 100 CHF\n\n", ann, day)
+			shape = append(shape, fmt.Sprintf("%s: %d filler, %s", rel, n, strings.TrimSpace(ann)))
+		case "requote":
+			price := fmt.Sprintf("%d.%d", 10+k, r.Intn(10))
+			if same {
+				price = "12.5"
+			}
+			if !same && k > 0 && r.Chance(1, 5) {
+				fmt.Fprintf(&b, "%s price CHF 0.0%d AAA\n\n", day, 5+k)
+				shape = append(shape, fmt.Sprintf("%s: %d filler, price CHF 0.0%d AAA", rel, n, 5+k))
+			} else {
+				fmt.Fprintf(&b, "%s price AAA %s CHF\n\n", day, price)
+				shape = append(shape, fmt.Sprintf("%s: %d filler, price AAA %s CHF", rel, n, price))
+			}
+		}
+		files[rel] = b.String()
+	}
+	jb := &c06Job{Idx: 400000 + i, Mixed: true}
+	switch family {
+	case "targets":
+		jb.Kind, jb.Args = "print-arrival-targets", []string{"print", "@root.knut"}
+	case "requote":
+		fmt.Fprintf(&root, "\n2020-03-02 \"buy\"\nEquity:Opening Assets:Broker 100 AAA\n\n2020-03-03 \"buy\"\nEquity:Opening Assets:Bank 7 AAA\n")
+		switch (i / 2) % 4 {
+		case 0:
+			jb.Kind, jb.Args = "balance-arrival-requote", []string{"balance", "--color=false", "-v", "CHF", "@root.knut"}
+		case 1:
+			jb.Kind, jb.Args = "register-arrival-requote", []string{"register", "--color=false", "-v", "CHF", "@root.knut"}
+		case 2:
+			jb.Kind, jb.Args = "transcode-arrival-requote", []string{"transcode", "-v", "CHF", "@root.knut"}
+		default:
+			jb.Kind, jb.Args = "weights-arrival-requote", []string{"portfolio", "weights", "--color=false", "-v", "CHF", "--months", "--csv", "@root.knut"}
+		}
+		if same {
+			jb.Kind += "-control"
+		}
+	}
+	files["root.knut"] = root.String()
+	jb.Files = files
+	jb.Input = map[string]any{"shape": family + " on " + day + "; " + strings.Join(shape, "; ")}
+	return jb
 }
 
 // c06CanonIllConditioned replaces the three ways `portfolio returns` prints a division by zero by one token.
